@@ -12,6 +12,9 @@ VERIF = os.path.dirname(os.path.dirname(HERE))
 
 
 def apply(m, root):
+    if "patch" in m:   # a unified diff next to the json file (paths a/src/..., b/src/...)
+        subprocess.run(["patch", "-p1", "-s", "-d", root, "-i", os.path.join(VERIF, "sim", "mutants", m["patch"])], check=True)
+        return
     p = os.path.join(root, m["file"])
     s = open(p).read()
     for a, b in (("pre_old", "pre_new"), ("old", "new")):
